@@ -3,7 +3,8 @@
 thorough self-test (mutants/seeds.json)."""
 import json, glob, os
 out=[]
-for d in sorted(glob.glob('/verif/seeded/*')):
+for d in sorted(glob.glob('/verif/seeded/*/')):
+    d=d.rstrip('/')
     m=json.load(open(d+'/meta.json'))
     out.append({"id":"seed-"+os.path.basename(d),"property":m["property"],"rules":[],"note":m.get("title",""),"patch":"seeded/"+os.path.basename(d)+"/patch.diff"})
 json.dump(out,open('/verif/mutants/seeds.json','w'),indent=1)
